@@ -19,11 +19,11 @@ RULE = ("all pairs (A,B): A = newline-terminated tab-free line-shape documents o
 PREF = ["", "> ", "- ", "  ", "    ", "1. "]
 LEAF = ["", "a", "# a", "---", "===", "- a", "-", "> a", ">", "```", "[a]: /u", "<div>", "<!-- x", "a|b", "-|-", " "]
 PREFB = ["", "> ", "- ", "1. "]
-LEAFB = ["a", "# a", "---", "===", "- a", "> a", "```", "[a]: /u", "<div>", "<!-- x", "a|b", "-|-", "    a", ""]
+LEAFB = ["a", "# a", "---", "===", "- a", "> a", "```", "[a]: /u", "<div>", "<!-- x", "a|b", "-|-", "    a", "", "[a]: /other 'T'"]
 LEAFB2 = ["a", "---", "===", "- a", "-|-", "    a", ""]
 LISTLINE = re.compile(r"^ {0,3}(?:[-+*]|\d{1,9}[.)])(?:[ \t]|$)")
 
-CFGS = [C.cfg("commonmark", enable=["table"]), C.cfg("js-default"),
+CFGS = [C.cfg("commonmark", {"inline_definitions": True, "store_labels": True}, enable=["table"]), C.cfg("js-default"),
         C.cfg("commonmark", disable=["code"]), C.cfg("js-default", disable=["blockquote"]),
         C.cfg("zero", enable=["list", "blockquote", "table"])]
 
@@ -111,6 +111,13 @@ def trim_container_ends(sa, n):
     return out
 
 
+_cfg_by_md = {}
+
+
+def _cfg_of(md):
+    return _cfg_by_md.get(id(md))
+
+
 def closed(md, A, acc):
     """returns (sig of parse(A+NL), last level-0 type) when A is closed, else None"""
     n = A.count("\n")
@@ -121,6 +128,17 @@ def closed(md, A, acc):
         return None
     sa = sig(ta)
     if sig(probe) != sa + sig(zzt, n + 1):
+        # not closed according to the probe; that must be explained by A's own structure (its last leaf block is
+        # a fence or an HTML block, which may legitimately run on) - otherwise something after A was lost or merged
+        leaf = None
+        for t in reversed(ta):
+            if t.nesting != -1:
+                leaf = t.type
+                break
+        if leaf not in ("fence", "html_block", None):
+            acc.violation("closed", f"probe paragraph lost or merged after {leaf}", {"cfg": _cfg_of(md), "A": A, "B": "zz\n"},
+                          "a paragraph after a blank line does not start a new top-level block although A does not "
+                          "end in an open fence or HTML block")
         return None
     last = [t for t in ta if t.level == 0]
     alone = acc.call(md.parse, A)
@@ -153,6 +171,10 @@ def pair(md, A, sa, lastA, B, sb, firstB, b_listline, acc, alone=None):
     return None
 
 
+# three-line A documents: quotes / lists containing a nested container, ended by a non-paragraph block or a lazy line
+K3Q = ["> > a", "> # h", "> ***", "> ```", "after", "> a", "- a", "  b", "- > a", "  > b", "> - a"]
+
+
 def bounds(tier):
     th = tier == "thorough"
     return {"A_prefixes": PREF, "A_leaves": LEAF, "A_K": 2, "A_K3_reduced": th, "B_docs": len(bdocs(tier)),
@@ -170,6 +192,8 @@ def shards(tier):
                 sh.append(("k2", f, ci, tier))
     for ci in range(0 if th else 1, len(CFGS)):
         sh.append(("k1", ci, tier))
+    for f in K3Q:
+        sh.append(("k3q", f, tier))
     if th:
         L3 = lines_of(["", "> ", "- ", "  "], ["", "a", "---", "- a", "> a", "```", "[a]: /u", "<div>", "a|b", "-|-"])
         for f in L3:
@@ -179,6 +203,7 @@ def shards(tier):
 
 
 def _run_A(md, c, tier, A, acc, sub):
+    _cfg_by_md[id(md)] = c
     r = closed(md, A, acc)
     if r is None:
         acc.count("A_not_closed")
@@ -213,6 +238,14 @@ def run_shard(sh, acc):
         for g in lines_of(PREF, LEAF):
             _run_A(md, c, tier, f + "\n" + g + "\n", acc, kind)
         acc.sample(kind, {"cfg": c, "A": f + "\n" + "a\n", "B": bdocs(tier)[3]}, 1)
+    elif kind == "k3q":
+        _, f, tier = sh
+        c = CFGS[0]
+        md = C.build(c)
+        for g in K3Q:
+            for h in K3Q:
+                _run_A(md, c, "quick", f + "\n" + g + "\n" + h + "\n", acc, kind)
+        acc.sample(kind, {"cfg": c, "A": "> > a\n> # h\nafter\n", "B": "a\n"}, 1)
     elif kind == "k1":
         c = CFGS[sh[1]]
         md = C.build(c)
@@ -231,6 +264,7 @@ def run_shard(sh, acc):
 def check_case(case, acc):
     c = case["cfg"]
     md = C.build(c, fresh=True)
+    _cfg_by_md[id(md)] = c
     A, B = case["A"], case["B"]
     r = closed(md, A, acc)
     acc.case()
